@@ -43,8 +43,13 @@ def range_number_from_counter(e, label, counter):
     number = counter.get(key, None)
 
     if number is None:
-        number = 1 + sum(1 for o in counter.keys() if o[0] == label)
-        assert number is not None
+        # the smallest number that no open element of this kind uses (counting
+        # the open elements is not enough: after number 1 has been closed,
+        # number 2 may still be open)
+        used = set(v for o, v in counter.items() if o[0] == label)
+        number = 1
+        while number in used:
+            number += 1
         counter[key] = number
 
     else:
@@ -221,7 +226,10 @@ def make_note_el(note, dur, voice, counter, n_of_staves):
         number = counter.get(tuplet_key, None)
 
         if number is None:
-            number = 1 + sum(1 for o in counter.keys() if o[0] == "tuplet")
+            used = set(v for o, v in counter.items() if o[0] == "tuplet")
+            number = 1
+            while number in used:
+                number += 1
             counter[tuplet_key] = number
 
         else:
